@@ -46,3 +46,31 @@ Theorem c14_refresh_failure : forall stale has_rt refresh_ok valid_old valid_new
   (o = SeqUnauth /\ cleared = true).
 Proof. exact seq_never_stale. Qed.
 Print Assumptions c14_refresh_failure.
+
+(* ---- providers outside the OIDC family (Model/GenericProvider.v: ProviderData.Redeem, a provider's e-mail
+   lookup at its profile endpoint, validateToken).  A session is created only when the token endpoint AND the
+   profile endpoint each answered 200 with the whole response received, the token endpoint's body carried a
+   non-empty access token (as JSON or as a form) and the profile an e-mail address; an error status never
+   yields a session whatever its body says; a stale session validates only on a 200 whose whole response arrived. *)
+From V.Lib Require Import Bytes.
+From V.Model Require Import GenericProvider.
+From V.Proofs Require Import GenericProviderProofs.
+From Coq Require Import ZArith.
+
+Theorem c14_generic_login_only_if : forall code rt bt rp email tok e,
+  generic_login code rt bt rp email = Some (tok, e) ->
+  code <> [] /\ rp_transport_ok rt = true /\ rp_status rt = 200%Z /\
+  rp_transport_ok rp = true /\ rp_status rp = 200%Z /\ tok <> [] /\ email = Some e /\
+  (bt = TJson (Some tok) \/ bt = TForm (Some tok)).
+Proof. exact generic_login_only_if. Qed.
+Print Assumptions c14_generic_login_only_if.
+
+Theorem c14_generic_error_status_no_session : forall code rt bt rp email,
+  rp_status rt <> 200%Z -> generic_login code rt bt rp email = None.
+Proof. exact error_status_no_session. Qed.
+Print Assumptions c14_generic_error_status_no_session.
+
+Theorem c14_generic_validate_only_if : forall tok r,
+  generic_validate tok r = true -> tok <> [] /\ rp_transport_ok r = true /\ rp_status r = 200%Z.
+Proof. exact generic_validate_only_if. Qed.
+Print Assumptions c14_generic_validate_only_if.
